@@ -201,6 +201,25 @@ pub fn check(_ctx: &Ctx, input: &Input) -> CaseResult {
                 b.extend(second_name_section());
                 out.label("input:extra-name-section");
             }
+            // a `name` section whose function-name map announces more entries
+            // than it has (walrus warns and ignores what it cannot read)
+            if bytes.first().map(|b| b % 7 == 3).unwrap_or(false) {
+                let payload = [&[4u8][..], b"name", &[1u8, 4, 2, 0, 1, b'x']].concat();
+                b.push(0);
+                b.push(payload.len() as u8);
+                b.extend(payload);
+                out.label("input:truncated-name-map");
+            }
+            // DWARF sections that the DWARF reader does not load
+            if want_dwarf && bytes.get(1).map(|b| b % 3 == 0).unwrap_or(false) {
+                for name in [".debug_pubnames", ".debug_frame"] {
+                    let payload = [&[name.len() as u8][..], name.as_bytes(), &[1u8, 2, 3]].concat();
+                    b.push(0);
+                    b.push(payload.len() as u8);
+                    b.extend(payload);
+                }
+                out.label("input:uncommon-debug-sections");
+            }
             (b, p.origin)
         }
         Input::Wasm { origin, bytes } => (bytes.clone(), origin.clone()),
